@@ -640,6 +640,21 @@ def deep_shared(prefix, family="bcast", cap=4, nvals=9):
     return out
 
 
+def overtaken(prefix, family="bcast", caps=(2,)):
+    """a full ring, one consumer that takes one value, two siblings on its stream that each take one value and
+    leave, and a producer that refills the ring: the consumer can lose the cursor race to one sibling, be
+    overtaken by the other, find itself alone and be lapped inside its clone"""
+    out = []
+    for cap in caps:
+        t = Topo(family, 1, [3])
+        a, b, c = t.streams[0]
+        setup = t.setup + sends("tx", 101, cap)
+        threads = [sends("tx", 201, cap), [S("recv", a)], [S("recv", b), S("drop", b)], [S("recv", c), S("drop", c)]]
+        out.append(scenario("%s-%s-overtaken-c%d" % (prefix, family, cap), family, False, cap, "busy", setup, threads,
+                            final_phase(t, {b, c})))
+    return out
+
+
 def with_epoch_pending(scns, family_of=None):
     """variants of scenarios whose setup first retires more than 20 objects, so that the epoch-change
     signal is pending when the real program starts (every handle's first call takes the slow path)"""
